@@ -4,7 +4,7 @@ from __future__ import annotations
 from typing import Dict, List, Optional, Set, Tuple
 
 from .clangx import (HeaderAST, _body, call_args, callee, calls, canon_type, line_of, ref_name, statements,
-                     strip, walk)
+                     strip, walk, inline_helpers)
 from .core import AnalysisError, Report
 
 ELEM_SIZE = {"mxUINT64_CLASS": 8, "mxINT64_CLASS": 8, "mxDOUBLE_CLASS": 8, "mxUINT32_CLASS": 4,
@@ -141,19 +141,78 @@ def _pointee(c) -> str:
     return TYPEDEFS.get(t, t)
 
 
+_CASTS = ("ImplicitCastExpr", "CStyleCastExpr", "CXXStaticCastExpr", "CXXFunctionalCastExpr", "CXXReinterpretCastExpr")
+_FLOATS = {"float", "double", "long double"}
+
+
+def _conversions(e, f=None, depth: int = 4) -> Tuple[Optional[str], List[Tuple[str, str]]]:
+    """(name of the variable read, [(cast kind, type converted to), innermost first]) for an expression that is a variable under
+    casts and parentheses; (None, ..) when it is anything else."""
+    chain: List[Tuple[str, str]] = []
+    n = e
+    while isinstance(n, dict) and n.get("inner") and n.get("kind") in _CASTS + ("ParenExpr", "MaterializeTemporaryExpr", "ExprWithCleanups", "ConstantExpr"):
+        if n.get("kind") in _CASTS and n.get("castKind") in ("IntegralCast", "IntegralToFloating", "FloatingToIntegral", "FloatingCast",
+                                                             "IntegralToBoolean", "FloatingToBoolean"):
+            t = canon_type(n.get("type", {})).replace("const ", "").strip()
+            chain.append((n["castKind"], TYPEDEFS.get(t, t)))
+        n = n["inner"][-1]
+    nm = (n.get("referencedDecl") or {}).get("name") if isinstance(n, dict) and n.get("kind") == "DeclRefExpr" else None
+    if nm is not None and f is not None and depth > 0 and (n.get("referencedDecl") or {}).get("kind") == "VarDecl":
+        # a local that is initialised once and not written again: the value comes from its initialiser
+        decls = [v for v in walk(f) if v.get("kind") == "VarDecl" and v.get("name") == nm and v.get("inner")]
+        written = any(b.get("kind") in ("BinaryOperator", "CompoundAssignOperator") and b.get("opcode", "").endswith("=") and b.get("opcode") not in ("==", "!=", "<=", ">=")
+                      and ref_name(b["inner"][0]) == nm for b in walk(f))
+        if len(decls) == 1 and not written:
+            inner_nm, inner_chain = _conversions(decls[0]["inner"][-1], f, depth - 1)
+            if inner_nm is not None:
+                return inner_nm, inner_chain + list(reversed(chain))
+    return nm, list(reversed(chain))
+
+
+def _lossy(t: str, chain, pointee: str, sizeof) -> Optional[str]:
+    """A step on the way from a value of type t into storage typed `pointee` that cannot hold every value of t."""
+    src = TYPEDEFS.get(t, t)
+    w = sizeof.get(src)
+    if w is None:
+        return None
+    for kind, dst in chain + [("store", pointee)]:
+        dw = sizeof.get(dst)
+        if dw is None:
+            continue
+        if kind.endswith("ToBoolean") and src != "bool":
+            return f"converted to bool"
+        if (dst in _FLOATS) != (src in _FLOATS):
+            if src in _FLOATS or w >= 8 or dw < 8:
+                return f"converted from {src} to {dst}"
+        elif dw < w:
+            return f"narrowed from {src} ({w} bytes) to {dst} ({dw} bytes)"
+    return None
+
+
 def rule_scalar_write(ctx, rep: Report, rid="K3", sizeof=SIZEOF_LP64, tag="LP64", h=None):
+    """wrap<T> for a scalar T creates a 1x1 array and stores the value through a cast of its data pointer - directly or in a
+    helper defined in the header (expanded in place).  The value reaches the store unchanged: no conversion on the way - an
+    implicit one at a helper's parameter, a cast, the type the data pointer is cast to - is to a type that cannot hold every T;
+    and the bytes written fit the element of the array that was created."""
     h = h or header(ctx)
     w = h.specialisations("wrap")
     n = 0
-    for t, f in sorted(w.items()):
+    for t, f0 in sorted(w.items()):
+        f = inline_helpers(h, f0)
         stores = list(_raw_stores(f))
         for asg, cast, arr in stores:
             n += 1
             pt = _pointee(cast)
             cls = _creation_class(f, arr)
             key = f"wrap<{t}>:{tag}"
-            rep.add(rid, f"{key}:store typed as the value", pt == TYPEDEFS.get(t, t),
-                    f"wrap<{t}> stores through ({pt}*): bytes of another type are written", hloc(asg))
+            src, chain = _conversions(asg["inner"][1], f)
+            lossy = _lossy(t, chain, pt, sizeof)
+            float_cls = cls == "mxDOUBLE_CLASS" or cls == "mxSINGLE_CLASS"
+            kind_ok = (pt in _FLOATS) == float_cls if cls is not None else False
+            rep.add(rid, f"{key}:the value reaches the store without loss", src is not None and lossy is None and kind_ok,
+                    (f"wrap<{t}>: the value is {lossy} before it is written: values of {t} outside that type come back to MATLAB as other numbers"
+                     if lossy else f"wrap<{t}> stores `{src}` through ({pt}*) into an array of class {cls}: bytes of another kind of number are written"),
+                    hloc(asg))
             es, sz = ELEM_SIZE.get(cls or ""), sizeof.get(pt)
             rep.add(rid, f"{key}:store fits the created array", es is not None and sz is not None and sz <= es,
                     f"wrap<{t}> writes sizeof({pt})={sz} bytes into a 1x1 array of class {cls} "
